@@ -138,6 +138,8 @@ func Families() []Named {
 		{"nested-optional", Parse("S", nil, "S: '(' O ')' ; O: | S")},
 		// a token named like identifiers of the generated code (`c` is the parameter of translate, `conv` its result)
 		{"token-named-c", Parse("S", []string{"a", "b", "c", "conv", "d"}, "S: S item | item ; item: a | b | c | conv d")},
+		// more left-recursive alternatives than the grammar has symbols, the base case written last
+		{"many-left-recursive-alternatives", Parse("L", nil, "L: L ',' I | L '+' I | L ',' '+' I | L '+' ',' I | L ',' ',' I | L '+' '+' I | I ; I: 'x'")},
 		// bison's %precedence line (a level without associativity) for the unary operator
 		{"precedence-directive", Parse("E", []string{"TA", "TU"}, "E: E '+' E | E '*' E | '-' E %prec TU | '(' E ')' | TA").
 			WithPrec("left '+'", "left '*'", "precedence TU")},
